@@ -1,6 +1,5 @@
 (** Crypt/SafeProofs.v — Decoder::from_password never panics, for any dictionary, document id and password, and the
-    decoder it returns never makes Decoder::decrypt panic (the slice in Decoder::key, the assert! in Rc4::new, the
-    unreachable!() of CryptMethod::None).  The oracles are total functions; the one law used is that MD5 digests have
+    decoder it returns never makes Decoder::decrypt panic (the slice in Decoder::key, the assert! in Rc4::new).  The oracles are total functions; the one law used is that MD5 digests have
     16 bytes. *)
 From PdfV Require Import Base.Prelude Gen.Generated Crypt.Rc4 Crypt.Rc4Proofs Crypt.Model Crypt.Spec Crypt.Tables Crypt.Proofs.
 
@@ -24,8 +23,7 @@ Section Safe.
   Notation FP := (from_password md5 sha256 sha384 sha512 aes_enc aes_dec prep).
 
   (* what Decoder::decrypt needs of a decoder in order not to panic *)
-  Definition dec_wf (dc : decoder) : Prop :=
-    k_method dc <> MNone /\ N.min (k_size dc) 16 <= lenN (k_key dc).
+  Definition dec_wf (dc : decoder) : Prop := N.min (k_size dc) 16 <= lenN (k_key dc).
 
   (* an outcome that is not a panic, and if it is a decoder, a well-formed one *)
   Definition safe_outcome (r : res decoder) : Prop :=
@@ -50,33 +48,19 @@ Section Safe.
     - cbn [bind]. eexists. split; [reflexivity|]. apply lenN_take. rewrite (md5_lenN MD5 md5_len). exact E.
   Qed.
 
-  Lemma crypt_method_not_none d bits m : crypt_method d = Ok (bits, m) -> m <> MNone.
-  Proof.
-    unfold crypt_method. destruct (d_v d =? 1)%Z; [intros H; inversion H; discriminate|].
-    destruct (d_v d =? 2)%Z.
-    { destruct (d_bits d mod 8 =? 0); intros H; inversion H; discriminate. }
-    destruct ((4 <=? d_v d)%Z && (d_v d <=? 6)%Z); [|discriminate].
-    destruct (d_stmf d) as [nm|]; [|discriminate].
-    destruct (cf_lookup nm (d_cf d)) as [f|]; [|discriminate].
-    destruct (match cf_length f with Some n => if 8 * n <? 4294967296 then Ok (8 * n) else Err E_OTHER | None => Ok (d_bits d) end) as [b|e|s|];
-      cbn [bind]; try discriminate.
-    destruct (cf_method f); try discriminate; try (intros H; inversion H; discriminate).
-    destruct (d_v d =? 5)%Z; [intros H; inversion H; discriminate|discriminate].
-  Qed.
-
   (* revisions 2-4 *)
-  Lemma from_password_rc4_safe level bits m d id0 pass : m <> MNone ->
-    safe_outcome (from_password_rc4 md5 level bits m d id0 pass).
+  Lemma from_password_rc4_safe level bits m ms d id0 pass :
+    safe_outcome (from_password_rc4 md5 level bits m ms d id0 pass).
   Proof.
-    intros Hm. unfold from_password_rc4. set (n := bits / 8).
+    unfold from_password_rc4. set (n := bits / 8).
     destruct (n =? 0) eqn:E0; [left; eexists; reflexivity|]. apply N.eqb_neq in E0.
     destruct (kd_user_ok level n d id0 pass) as (k1 & Hk1 & Lk1). rewrite Hk1. cbn [bind].
     assert (Hkey : forall k : bytes, lenN k = N.max n 16 -> 1 <= lenN (take (N.min n 16) k) <= 256).
     { intros k Lk. rewrite lenN_take by lia. lia. }
     rewrite (check_password_spec MD5 md5_len) by (apply Hkey; exact Lk1). cbn [bind].
-    assert (Hwf : forall k : bytes, lenN k = N.max n 16 -> safe_outcome (Ok (decoder_new k n m (d_em d || (d_v d <? 4)%Z)))).
-    { intros k Lk. right. right. eexists. split; [reflexivity|]. split; [exact Hm|].
-      cbn [decoder_new k_size k_key]. lia. }
+    assert (Hwf : forall k : bytes, lenN k = N.max n 16 -> safe_outcome (Ok (decoder_with k n m ms (d_em d || (d_v d <? 4)%Z)))).
+    { intros k Lk. right. right. eexists. split; [reflexivity|]. unfold dec_wf.
+      cbn [decoder_with k_size k_key]. lia. }
     destruct (u_matches MD5 level (take (N.min n 16) k1) (d_u d) id0); [apply Hwf; exact Lk1|].
     destruct (kd_owner_ok level n pass) as [[e He]|(Hn16 & w & Hw & Lw)]; [lia|rewrite He; left; eexists; reflexivity|].
     rewrite Hw. cbn [bind]. rewrite rc4_rounds_spec by lia. cbn [bind].
@@ -111,10 +95,10 @@ Section Safe.
   Qed.
 
   (* revisions 5 and 6 *)
-  Lemma from_password_56_safe fuel level m d pass : m <> MNone ->
-    safe_outcome (from_password_56 sha256 sha384 sha512 aes_enc aes_dec prep fuel level m d pass).
+  Lemma from_password_56_safe fuel level m ms d pass :
+    safe_outcome (from_password_56 sha256 sha384 sha512 aes_enc aes_dec prep fuel level m ms d pass).
   Proof.
-    intros Hm. unfold from_password_56.
+    unfold from_password_56.
     destruct (negb (lenN (d_u d) =? 48)); [left; eexists; reflexivity|].
     destruct (negb (lenN (d_o d) =? 48)); [left; eexists; reflexivity|].
     unfold prep at 1. cbn [bind]. destruct (PREP pass) as [p|]; [|left; eexists; reflexivity].
@@ -124,11 +108,11 @@ Section Safe.
     assert (Hfin : forall ik wrapped,
       safe_outcome (if negb (lenN wrapped mod 16 =? 0) then Err E_INVALID_PASSWORD
                     else do key <- aes_dec ik zero_iv wrapped;
-                         if negb (lenN key =? 32) then Err E_OTHER else Ok (decoder_new key 32 m (d_em d || (d_v d <? 4)%Z)))).
+                         if negb (lenN key =? 32) then Err E_OTHER else Ok (decoder_with key 32 m ms (d_em d || (d_v d <? 4)%Z)))).
     { intros ik wrapped. destruct (negb (lenN wrapped mod 16 =? 0)); [left; eexists; reflexivity|].
       unfold aes_dec at 1. cbn [bind]. destruct (lenN (AESD ik zero_iv wrapped) =? 32) eqn:E; cbn [negb]; [|left; eexists; reflexivity].
-      apply N.eqb_eq in E. right. right. eexists. split; [reflexivity|]. split; [exact Hm|].
-      cbn [decoder_new k_size k_key]. rewrite E. change (N.min 32 16) with 16. lia. }
+      apply N.eqb_eq in E. right. right. eexists. split; [reflexivity|]. unfold dec_wf.
+      cbn [decoder_with k_size k_key]. rewrite E. change (N.min 32 16) with 16. lia. }
     destruct (code_hash_safe fuel level pw (take 8 (drop 32 (d_u d))) []) as [[uh Huh]|Huh]; rewrite Huh; cbn [bind];
       [|right; left; reflexivity].
     destruct (bytes_eqb uh (take 32 (d_u d))).
@@ -141,28 +125,35 @@ Section Safe.
         [apply Hfin|right; left; reflexivity].
   Qed.
 
+  Lemma crypt_filter_of_cases d name : (exists v, crypt_filter_of d name = Ok v) \/ (exists e, crypt_filter_of d name = Err e).
+  Proof.
+    unfold crypt_filter_of. destruct name as [nm|]; [|left; eexists; reflexivity].
+    destruct (bytes_eqb nm identity_name); [left; eexists; reflexivity|].
+    destruct (cf_lookup nm (d_cf d)) as [f|]; [|right; eexists; reflexivity].
+    destruct (cf_length f) as [n|]; [destruct (8 * n <? 4294967296)|]; cbn [bind];
+      try (right; eexists; reflexivity);
+      (destruct (cf_method f); [right|left|left|destruct (d_v d =? 5)%Z; [left|right]]; eexists; reflexivity).
+  Qed.
+
+  Lemma crypt_method_cases d : (exists v, crypt_method d = Ok v) \/ (exists e, crypt_method d = Err e).
+  Proof.
+    unfold crypt_method. destruct (d_v d =? 1)%Z; [left; eexists; reflexivity|].
+    destruct (d_v d =? 2)%Z; [destruct (d_bits d mod 8 =? 0); [left|right]; eexists; reflexivity|].
+    destruct ((4 <=? d_v d)%Z && (d_v d <=? 6)%Z); [|right; eexists; reflexivity].
+    destruct (crypt_filter_of_cases d (d_stmf d)) as [[a Ha]|[e He]]; [rewrite Ha|rewrite He; right; eexists; reflexivity].
+    cbn [bind].
+    destruct (crypt_filter_of_cases d (d_strf d)) as [[b Hb]|[e He]]; [rewrite Hb|rewrite He; right; eexists; reflexivity].
+    cbn [bind]. left. eexists. reflexivity.
+  Qed.
+
   (** Decoder::from_password ends in an error value, in fuel exhaustion of the model (the data-dependent loop of
       revision_6_kdf), or in a well-formed decoder — for every dictionary, document id, password and fuel *)
   Theorem from_password_safe : forall fuel d id0 pass, safe_outcome (FP fuel d id0 pass).
   Proof.
     intros fuel d id0 pass. unfold from_password.
-    destruct (crypt_method d) as [[bits m]|e|s|] eqn:Ecm; cbn [bind].
-    - pose proof (crypt_method_not_none d bits m Ecm) as Hm.
-      destruct (negb ((2 <=? d_r d) && (d_r d <=? 6))); [left; eexists; reflexivity|].
-      destruct (d_r d <=? 4); [apply from_password_rc4_safe|apply from_password_56_safe]; exact Hm.
-    - left. eexists. reflexivity.
-    - exfalso. revert Ecm. unfold crypt_method.
-      repeat match goal with
-             | |- context [if ?c then _ else _] => destruct c
-             | |- context [match ?x with Some _ => _ | None => _ end] => destruct x
-             | |- context [match cf_method ?f with _ => _ end] => destruct (cf_method f)
-             end; cbn [bind]; discriminate.
-    - exfalso. revert Ecm. unfold crypt_method.
-      repeat match goal with
-             | |- context [if ?c then _ else _] => destruct c
-             | |- context [match ?x with Some _ => _ | None => _ end] => destruct x
-             | |- context [match cf_method ?f with _ => _ end] => destruct (cf_method f)
-             end; cbn [bind]; discriminate.
+    destruct (crypt_method_cases d) as [[[[bits m] ms] Hcm]|[e Hcm]]; rewrite Hcm; cbn [bind]; [|left; eexists; reflexivity].
+    destruct (negb ((2 <=? d_r d) && (d_r d <=? 6))); [left; eexists; reflexivity|].
+    destruct (d_r d <=? 4); [apply from_password_rc4_safe|apply from_password_56_safe].
   Qed.
 
   Theorem from_password_no_panic : forall fuel d id0 pass s, FP fuel d id0 pass <> Panic s.
@@ -172,18 +163,18 @@ Section Safe.
   Qed.
 
   Lemma install_wf dc enc meta : dec_wf dc -> dec_wf (install dc enc meta).
-  Proof. unfold dec_wf, install. cbn [k_method k_size k_key]. tauto. Qed.
+  Proof. unfold dec_wf, install. cbn [k_size k_key]. tauto. Qed.
 
-  (** a well-formed decoder never makes Decoder::decrypt panic, whatever the object, generation and bytes *)
-  Theorem decrypt_no_panic : forall dc num gen data s, dec_wf dc -> decrypt md5 aes_dec dc num gen data <> Panic s.
+  (** a well-formed decoder never makes Decoder::decrypt_with panic, whatever the method, object, generation and bytes *)
+  Theorem decrypt_with_no_panic : forall m dc num gen data s, dec_wf dc -> decrypt_with md5 aes_dec m dc num gen data <> Panic s.
   Proof.
-    intros dc num gen data s [Hm Hk]. unfold decrypt.
+    intros m dc num gen data s Hk. unfold dec_wf in Hk. unfold decrypt_with.
     destruct (oref_is (k_enc_obj dc) num gen); [discriminate|].
     destruct (negb (k_em dc) && oref_is (k_meta_obj dc) num gen); [discriminate|].
     destruct (lenN data =? 0); [discriminate|].
     assert (Hdk : dkey dc = Ok (take (N.min (k_size dc) 16) (k_key dc))).
     { unfold dkey. replace (lenN (k_key dc) <? N.min (k_size dc) 16) with false by (symmetry; apply N.ltb_ge; exact Hk). reflexivity. }
-    destruct (k_method dc); [contradiction| | |].
+    destruct m; [discriminate| | |].
     - rewrite Hdk. cbn [bind]. unfold md5 at 1. cbn [bind].
       rewrite rc4_ok; [discriminate|]. rewrite lenN_take by (rewrite (md5_lenN MD5 md5_len); lia). lia.
     - rewrite Hdk. cbn [bind]. unfold md5 at 1. cbn [bind].
@@ -202,6 +193,6 @@ Section Safe.
   Proof.
     intros fuel d id0 pass enc meta dc num gen data s H. unfold load_decoder in H.
     destruct (from_password_safe fuel d id0 pass) as [[e He]|[He|(dc0 & He & Hwf)]]; rewrite He in H; cbn [bind] in H; try discriminate.
-    inversion H; subst dc. split; apply decrypt_no_panic; apply install_wf; exact Hwf.
+    inversion H; subst dc. split; apply decrypt_with_no_panic; apply install_wf; exact Hwf.
   Qed.
 End Safe.
